@@ -29,7 +29,8 @@ struct Case {
     n_extra: usize, shares_verbatim: usize, shares_modified: usize, extra_in_core_ns: usize, fast_scan: bool,
 }
 
-type Slice = (bool, Vec<Vec<(usize, usize)>>);
+/// (target matches?, matches of each of its patterns, does the scan report a match for any pattern of any rule?)
+type Slice = (bool, Vec<Vec<(usize, usize)>>, bool);
 
 fn slice_of(rules: &yara_x::Rules, globals: &[GV], data: &[u8], target: &str, fast_scan: bool) -> Result<Slice, String> {
     catch(AssertUnwindSafe(|| {
@@ -41,8 +42,10 @@ fn slice_of(rules: &yara_x::Rules, globals: &[GV], data: &[u8], target: &str, fa
         let pats = |r: &yara_x::Rule| -> Vec<Vec<(usize, usize)>> {
             r.patterns().include_private(true).map(|p| p.matches().map(|m| (m.range().start, m.range().len())).collect()).collect()
         };
-        for r in res.matching_rules().include_private(true) { if r.namespace() == CORE_NS && r.identifier() == target { return Ok((true, pats(&r))); } }
-        for r in res.non_matching_rules().include_private(true) { if r.namespace() == CORE_NS && r.identifier() == target { return Ok((false, pats(&r))); } }
+        let any = res.matching_rules().include_private(true).chain(res.non_matching_rules().include_private(true))
+            .any(|r| r.patterns().include_private(true).any(|p| p.matches().len() > 0));
+        for r in res.matching_rules().include_private(true) { if r.namespace() == CORE_NS && r.identifier() == target { return Ok((true, pats(&r), any)); } }
+        for r in res.non_matching_rules().include_private(true) { if r.namespace() == CORE_NS && r.identifier() == target { return Ok((false, pats(&r), any)); } }
         Err("target rule not found in the results".to_string())
     })).unwrap_or_else(|p| Err(format!("panic: {}", p)))
 }
@@ -175,11 +178,11 @@ fn corpus() -> Vec<Case> {
 }
 
 fn coq_slice(s: &Slice) -> String {
-    format!("(mkObs {} {})", coq_bool(s.0), coq_list(&s.1, |m| coq_list(m, |(o, l)| format!("({}, {})", o, l))))
+    format!("(mkObs {} {} {})", coq_bool(s.0), coq_list(&s.1, |m| coq_list(m, |(o, l)| format!("({}, {})", o, l))), coq_bool(s.2))
 }
 fn json_slice(s: &Slice) -> String {
     let m: Vec<String> = s.1.iter().map(|p| format!("[{}]", p.iter().map(|(o, l)| format!("[{},{}]", o, l)).collect::<Vec<_>>().join(","))).collect();
-    format!("{{\"matching\":{},\"matches\":[{}]}}", s.0, m.join(","))
+    format!("{{\"matching\":{},\"matches\":[{}],\"scan_reports_matches\":{}}}", s.0, m.join(","), s.2)
 }
 
 fn main() { let args: Vec<String> = std::env::args().skip(1).collect(); std::process::exit(run(&args)); }
@@ -251,7 +254,8 @@ pub fn run(args: &[String]) -> i32 {
         if case.fast_scan { stats.inc("fast_scan_mode"); }
         if single.0 { stats.inc("target_matches"); }
         if single.1.iter().any(|m| !m.is_empty()) { stats.inc("target_has_pattern_matches"); }
-        if single != embedded { stats.inc("slices_differ"); }
+        if (single.0, &single.1) != (embedded.0, &embedded.1) { stats.inc("slices_differ"); }
+        if single.1 != embedded.1 && single.0 == embedded.0 && (!single.2 || !embedded.2) { stats.inc("matches_differ_only_because_one_scan_never_searched"); }
         if size(&case.core.last().unwrap().cond) >= 5 { distinct.insert(format!("{}|{}", rule_source(0, case.core.last().unwrap()), case.n_extra)); }
         let tr = case.core.last().unwrap();
         let anch = anchoring(&tr.cond, tr.pats.len());
